@@ -45,7 +45,7 @@ class Run:
         o.models = sorted(set(o.models) | set(ex.stats['models']))
         ex.stats['steps'] = 0; ex.stats['solver_s'] = 0.0
 
-    def explore(self, ex, st, poll=False, allow_havoc=()):
+    def explore(self, ex, st, poll=False, allow_havoc=(), defer_abort=False):
         """run to completion; classify paths.  Abort paths make the obligation inconclusive."""
         paths = ex.run(st)
         if poll:
@@ -56,6 +56,8 @@ class Run:
             if p.kind in ('infeasible',):
                 continue
             if p.kind == 'abort':
+                if defer_abort:
+                    good.append(p); continue
                 raise E.Inconclusive('unmodelled construct on a feasible path: ' + str(p.info))
             if p.kind == 'unreachable':
                 raise E.Inconclusive('reached `unreachable`: ' + str(p.info))
@@ -168,9 +170,9 @@ class Run:
                 fn(self)
                 o.status = 'violated' if o.violations else ('known-finding' if o.known else 'discharged')
             except E.Inconclusive as e:
-                o.status = 'inconclusive'; o.inconclusive = str(e)
+                o.status = 'violated' if o.violations else 'inconclusive'; o.inconclusive = str(e)
             except (MirError, z3.Z3Exception, KeyError, IndexError, AttributeError, TypeError, ValueError, AssertionError) as e:
-                o.status = 'inconclusive'; o.inconclusive = f'{type(e).__name__}: {e}\n' + traceback.format_exc()[-1500:]
+                o.status = 'violated' if o.violations else 'inconclusive'; o.inconclusive = f'{type(e).__name__}: {e}\n' + traceback.format_exc()[-1500:]
             o.wall_s = round(time.time() - t0, 2)
             snap.log(f'{self.pid} {name}: {o.status} paths={o.paths} queries={len(o.queries)} {o.wall_s}s' + (f' :: {o.inconclusive[:300]}' if o.inconclusive else ''))
         if any(o.status == 'violated' for o in self.outcomes):
